@@ -7,4 +7,7 @@ CLAIMS = {
  'C03': dict(text='Proof (real-arithmetic semantics): llh2xyz equals the closed form on every path for every ellipsoid, its foot point lies on the ellipsoid with the stated normal; xyz2llh loop step, exit criterion, longitude range and exact inverse at a fixed point are discharged obligations on the real functions (loop cut). Float tolerances (1 um, 0.02 mm) and convergence are bounded (lattice vs 50-digit closed form).',
              note='floats as reals; transcendental functions as axiomatised UFs; contraction of the latitude iteration is an assumed lemma checked only by the bounded layer; VC generator trusted, cross-checked against CPython each run',
              technique='contracts on real functions, symbolic execution + loop cut, z3-discharged VCs; deal-style bounded stand-in'),
+ 'C16': dict(text='Proof (real-arithmetic semantics): the rotation matrix is orthonormal, right-handed with the specified east/north/up columns for every lat/lon; enu<->xyz are exact inverses preserving length; covariance rotation equals R^T V R / R V R^T, preserves symmetry, trace and characteristic polynomial and round-trips; error-ellipse axes are the eigenvalues of the horizontal block with the major axis an eigenvector at the returned bearing; relative error uses V1+V2-C12-C12^T; k_val95 selection/index bounds for all integers; the 120-entry t-table is bracketed exhaustively by 40-digit incomplete beta. Float behaviour bounded.',
+             note='floats as reals; sin/cos as UFs with sin^2+cos^2=1; atan2 polar form and double-angle identities as axiom instances; numpy executed natively on object arrays (np.zeros replaced by an object-array allocator in the checker process); PSD inputs assumed exactly PSD',
+             technique='contracts on real functions run on symbolic matrices, polynomial VCs discharged by z3 (nlsat); exhaustive table bracket; bounded lattice stand-in'),
 }
